@@ -116,6 +116,16 @@ func doMatchIn(expression *grammar.MatchExpression, value reflect.Value) (bool, 
 
 	switch kind := value.Kind(); kind {
 	case reflect.Map:
+		key := reflect.ValueOf(matchValue)
+		if keyType := value.Type().Key(); !key.IsValid() || !key.Type().AssignableTo(keyType) {
+			// MapIndex panics unless the key is assignable to the map's key
+			// type; named string types can be converted, other key types
+			// cannot be looked up with a string literal
+			if !key.IsValid() || keyType.Kind() != reflect.String {
+				return false, fmt.Errorf("Cannot perform in/contains operations on a map with %s keys for selector: %q", keyType, expression.Selector)
+			}
+			return value.MapIndex(key.Convert(keyType)).IsValid(), nil
+		}
 		found := value.MapIndex(reflect.ValueOf(matchValue))
 		return found.IsValid(), nil
 
